@@ -5,9 +5,9 @@ package symgo
 
 import (
 	"fmt"
-	"reflect"
 	"go/types"
 	"os"
+	"reflect"
 	"strings"
 
 	"golang.org/x/tools/go/packages"
